@@ -4,7 +4,7 @@ import PEval.Model.Enums
 /-!
 Model of the 3-D dataset loader (`perception_eval/common/dataset.py`: `load_all_datasets`,
 `_load_dataset`; `common/dataset_utils.py`: `_sample_to_frame`, `_get_sample_boxes`,
-`_get_transforms` (the ego→map matrix), `_convert_nuscenes_box_to_dynamic_object`,
+`_get_transforms` (the ego→map matrix and the averaged traffic-light camera), `_convert_nuscenes_box_to_dynamic_object`,
 `_get_tracking_data`; `common/label.py`: `LabelConverter.convert_label`; `common/schema.py`:
 `Visibility.from_value`).
 
@@ -76,6 +76,10 @@ def conj (q : Quat) : Quat := ⟨q.w, -q.x, -q.y, -q.z⟩
 def zero : Quat := ⟨0, 0, 0, 0⟩
 def add (p q : Quat) : Quat := ⟨p.w + q.w, p.x + q.x, p.y + q.y, p.z + q.z⟩
 def normSq (q : Quat) : Rat := q.w * q.w + q.x * q.x + q.y * q.y + q.z * q.z
+/-- pyquaternion `-q` (the same rotation as `q`) -/
+def neg (q : Quat) : Quat := ⟨-q.w, -q.x, -q.y, -q.z⟩
+/-- `np.dot(p.q, q.q)`: the 4-D dot product of the components -/
+def dot (p q : Quat) : Rat := p.w * q.w + p.x * q.x + p.y * q.y + p.z * q.z
 end Quat
 
 /-- `q.rotation_matrix · v` by the homogeneous rotation-matrix formula (a rotation when `normSq q = 1`) -/
@@ -355,16 +359,35 @@ def containsSub : List Char → List Char → Bool
 def isTlrCamera (member : String) : Bool :=
   containsSub (cameraType member).toList "CAM_TRAFFIC_LIGHT".toList
 
-/-- `tlr_avg_quat`: the calibrated rotations of the traffic-light cameras, in table order -/
-def tlrRotations (T : Tables) (frames : List String) : List Quat :=
+/-- the calibrated rotations of the traffic-light cameras as written in the table, in table order -/
+def tlrRawRotations (T : Tables) (frames : List String) : List Quat :=
   (T.calibratedSensors.zip frames).filterMap (fun p => if isTlrCamera p.2 then some p.1.rotation else none)
+
+/-- `if np.dot(tlr_avg_quat[0].q, sensor_rotation.q) < 0: sensor_rotation = -sensor_rotation` -/
+def alignTo (q0 q : Quat) : Quat := if Quat.dot q0 q < 0 then q.neg else q
+
+/-- the sign alignment of `_get_transforms`: the first rotation is appended as it is (`len(tlr_avg_quat) > 0`
+fails), every later one is negated when its 4-D dot product with the FIRST one is negative -/
+def alignSigns : List Quat → List Quat
+  | [] => []
+  | q0 :: rest => q0 :: rest.map (alignTo q0)
+
+/-- `tlr_avg_quat`: the calibrated rotations of the traffic-light cameras, in table order, sign-aligned
+with the first of them (`q` and `-q` are one and the same rotation; repair of finding C16-N1) -/
+def tlrRotations (T : Tables) (frames : List String) : List Quat :=
+  alignSigns (tlrRawRotations T frames)
+
+/-- `tlr_avg_pos`: the calibrated translations of the traffic-light cameras, in table order -/
+def tlrPositions (T : Tables) (frames : List String) : List Vec3 :=
+  (T.calibratedSensors.zip frames).filterMap (fun p => if isTlrCamera p.2 then some p.1.translation else none)
 
 /-- the loop of `_get_transforms` over `nusc.calibrated_sensor`: every calibrated sensor's sensor must
 resolve (`KeyError`) and its channel must be a `FrameID` value (`FrameID.from_value`: `ValueError`);
-the result lists the source frames of the sensor→ego matrices. Afterwards the rotations of the
-traffic-light cameras are averaged, `sum(tlr_avg_quat) / sum(tlr_avg_quat).norm`: when they sum to the
-zero quaternion (e.g. two cameras calibrated `q` and `-q`, the same rotation) the division raises
-`ZeroDivisionError` (known finding C16-N1). -/
+the result lists the source frames of the sensor→ego matrices. Afterwards the sign-aligned rotations of
+the traffic-light cameras are averaged, `sum(tlr_avg_quat) / sum(tlr_avg_quat).norm`: Python divides by
+the norm, so a zero sum would raise `ZeroDivisionError`. Since the repair of finding C16-N1 (sign
+alignment) that cannot happen unless the first rotation is itself the zero quaternion
+(`PEval.C16.traffic_light_rotations_never_cancel`). -/
 def sensorFrames (T : Tables) : Except Err (List String) :=
   match mapE (fun cs =>
     match lookup Sensor.token T.sensors cs.sensorToken with
@@ -374,6 +397,18 @@ def sensorFrames (T : Tables) : Except Err (List String) :=
   | .ok frames =>
     if !(tlrRotations T frames).isEmpty && (tlrRotations T frames).foldl Quat.add Quat.zero == Quat.zero
     then .error "ZeroDivisionError" else .ok frames
+
+/-- the `CAM_TRAFFIC_LIGHT -> BASE_LINK` matrix that `_get_transforms` appends when the dataset has
+traffic-light cameras: position `np.mean(tlr_avg_pos, axis=0)`; `rot` holds the SUM of the sign-aligned
+rotations — Python stores that sum divided by its norm (irrational in general), which is the same
+rotation under the homogeneous rotation-matrix formula. `none`: no traffic-light camera. -/
+def tlrAverage (T : Tables) : Except Err (Option Pose) :=
+  match sensorFrames T with
+  | .error e => .error e
+  | .ok frames =>
+    if (tlrRotations T frames).isEmpty then .ok none
+    else .ok (some ⟨((tlrPositions T frames).foldl Vec3.add Vec3.zero).divBy ((tlrPositions T frames).length : Nat),
+                    (tlrRotations T frames).foldl Quat.add Quat.zero⟩)
 
 /-! ## velocities (`_get_box_velocity` of perception_eval, `NuScenes.box_velocity` of the devkit) -/
 
